@@ -160,6 +160,9 @@ type Env struct {
 	log       []string
 	notes     []string
 	viol      []Violation
+	vmu       sync.Mutex
+	vlog      []string
+	phaseNo   atomic.Int32
 	Faults    map[string]int
 	Probes    map[string]int
 	phase     int
@@ -235,9 +238,11 @@ func (e *Env) flushNotes() {
 // Wait runs the system to quiescence and closes the current phase.
 func (e *Env) Wait() {
 	synctest.Wait()
+	e.flushViolations()
 	e.flushNotes()
 	e.mu.Lock()
 	e.phase++
+	e.phaseNo.Store(int32(e.phase))
 	ch := e.phaseCh
 	e.phaseCh = nil
 	e.mu.Unlock()
@@ -298,21 +303,37 @@ func (e *Env) Stub(c ...string) {
 	e.mu.Unlock()
 }
 
-// Violate records a violation of rule with a discriminating signature.
+// Violate records a violation of rule with a discriminating signature. It takes only its own lock, so an
+// oracle that reports while it holds e.mu cannot wedge the run (that mistake turned violations into harness
+// trouble twice).
 func (e *Env) Violate(rule, sig, format string, a ...any) {
 	if e.RulePrefix != "" && !strings.HasPrefix(rule, e.RulePrefix) {
 		return
 	}
-	e.mu.Lock()
-	defer e.mu.Unlock()
+	e.vmu.Lock()
+	defer e.vmu.Unlock()
 	if len(e.viol) >= 8 {
 		return
 	}
-	e.viol = append(e.viol, Violation{Rule: rule, Sig: sig, Msg: fmt.Sprintf(format, a...), Phase: e.phase, Pos: e.Tape.Pos()})
-	e.log = append(e.log, fmt.Sprintf("#%d !! VIOLATION %s [%s] %s", e.phase, rule, sig, fmt.Sprintf(format, a...)))
+	ph := int(e.phaseNo.Load())
+	e.viol = append(e.viol, Violation{Rule: rule, Sig: sig, Msg: fmt.Sprintf(format, a...), Phase: ph, Pos: e.Tape.Pos()})
+	e.vlog = append(e.vlog, fmt.Sprintf("#%d !! VIOLATION %s [%s] %s", ph, rule, sig, fmt.Sprintf(format, a...)))
 }
 
-func (e *Env) Violated() bool { e.mu.Lock(); defer e.mu.Unlock(); return len(e.viol) > 0 }
+func (e *Env) Violated() bool { e.vmu.Lock(); defer e.vmu.Unlock(); return len(e.viol) > 0 }
+
+// flushViolations moves the pending violation lines into the event log.
+func (e *Env) flushViolations() {
+	e.vmu.Lock()
+	v := e.vlog
+	e.vlog = nil
+	e.vmu.Unlock()
+	if len(v) > 0 {
+		e.mu.Lock()
+		e.log = append(e.log, v...)
+		e.mu.Unlock()
+	}
+}
 
 // OnCleanup registers a function run during teardown (in reverse order).
 func (e *Env) OnCleanup(f func()) { e.mu.Lock(); e.cleanup = append(e.cleanup, f); e.mu.Unlock() }
@@ -520,6 +541,7 @@ func Execute(t *testing.T, p *PropDef, tape *Tape, keepLog bool) (res *RunResult
 			env.teardown()
 		})
 	}()
+	env.flushViolations()
 	env.mu.Lock()
 	defer env.mu.Unlock()
 	res.Scenario = env.scenario
